@@ -149,9 +149,17 @@ def run_case(c):
         yield [core.base.eq(q["base"]), core.end.eq(q["base"] + q["range_bytes"]), core.length.eq(q["length"]),
                core.random_data.eq(int(q["random_data"])), core.random_addr.eq(int(q["random_addr"]))]
         yield
+        if cur.get("used", {}).get(id(core)):
+            # DONE is terminal: like the CSR wrappers, pulse the core's reset before a new run
+            yield core.reset.eq(1)
+            yield
+            yield core.reset.eq(0)
+            yield
+        cur.setdefault("used", {})[id(core)] = True
         yield core.start.eq(1)
         yield
         yield core.start.eq(0)
+        yield
         for _ in range(bound):
             if (yield core.done):
                 return True
